@@ -829,7 +829,7 @@ type typedFlat struct {
 
 type C18TypedCase struct {
 	Mode  Mode     `json:"mode"`
-	Calls []string `json:"calls"` // the arguments object of each call, as JSON text
+	Calls []string `json:"calls"`          // the arguments object of each call, as JSON text
 	Flat  bool     `json:"flat,omitempty"` // the tool's input is typedFlat
 }
 
